@@ -95,8 +95,9 @@ func vcbCheck(content string) (fails []hlib.Failure) {
 	return
 }
 
-func TestVerifC08Codabar(t *testing.T) {
-	r := hlib.New("C08")
+func vcbMain(t *testing.T, id string, only ...string) {
+	r := hlib.New(id)
+	r.Only = only
 	defer r.Done(t)
 	rng := rand.New(rand.NewSource(r.Seed))
 	thorough := r.Tier == "thorough"
@@ -144,9 +145,9 @@ func TestVerifC08Codabar(t *testing.T) {
 		}
 	}
 	flush()
-	n := 30000
+	n := 300000
 	if thorough {
-		n = 3000000
+		n = 10000000
 	}
 	for i := 0; i < n; i++ {
 		l := rng.Intn(30)
@@ -169,4 +170,11 @@ func TestVerifC08Codabar(t *testing.T) {
 		}
 	}
 	flush()
+}
+
+func TestVerifC08Codabar(t *testing.T) { vcbMain(t, "C08") }
+
+// The same cases reported under the other properties they serve (only the named checks count).
+func TestVerifC10Codabar(t *testing.T) {
+	vcbMain(t, "C10", "panic", "result-shape", "rejects-representable", "accepts-unrepresentable")
 }
